@@ -109,8 +109,9 @@ def _return_tree(body):
 
 
 class Helper:
-    def __init__(self, fn, cls, kind, expr=None):
-        self.fn, self.cls, self.kind, self.expr = fn, cls, kind, expr     # kind: "expr" | "stmts"
+    def __init__(self, fn, cls, kind, expr=None, prefix=None):
+        self.fn, self.cls, self.kind, self.expr = fn, cls, kind, expr     # kind: "expr" (a pure tree of returns) | "stmts" (statements, then `expr` (or nothing) is returned)
+        self.prefix = prefix or []
 
     @property
     def params(self):
@@ -149,8 +150,15 @@ def plan_helper(fn, cls):
         h = Helper(fn, cls, "expr", expr)
     else:
         rets = [n for n in walk_shallow(fn) if isinstance(n, ast.Return)]
-        if not rets or (len(rets) == 1 and rets[0] is body[-1]):
-            h = Helper(fn, cls, "stmts")
+        if not rets:
+            h = Helper(fn, cls, "stmts", None, body)
+        else:
+            # statements without any return, followed by a pure tree of returns
+            for k in range(1, len(body)):
+                tail = _return_tree(body[k:])
+                if tail is not None and not any(isinstance(n, ast.Return) for b in body[:k] for n in walk_shallow(b)):
+                    h = Helper(fn, cls, "stmts", tail, body[:k])
+                    break
     if h is not None:
         h.static = static
     return h
@@ -226,6 +234,7 @@ class Inliner:
         self.helpers = {}        # ("", name) | (Class, name) -> Helper
         self.count = 0
         self.inlined = []
+        self.removed = []
 
     def collect(self):
         for n in self.tree.body:
@@ -248,16 +257,25 @@ class Inliner:
             h = self.helpers.get(("", f.id))
             if h:
                 return h, None
-        elif isinstance(f, ast.Attribute) and isinstance(f.value, ast.Name):
-            if cls is not None and f.value.id in ("self", "cls"):
-                h = self.helpers.get((cls, f.attr))
-                if h:
-                    if h.static == "staticmethod":
-                        return h, None
+        elif isinstance(f, ast.Attribute):
+            if isinstance(f.value, ast.Name):
+                if cls is not None and f.value.id in ("self", "cls"):
+                    h = self.helpers.get((cls, f.attr))
+                    if h:
+                        if h.static == "staticmethod":
+                            return h, None
+                        return h, f.value
+                h = self.helpers.get((f.value.id, f.attr))
+                if h and h.static:
+                    return h, (None if h.static == "staticmethod" else f.value)
+            # <object>.<new method>(...): a method name that exactly one class of the module defines (and the reference does not know)
+            owners = [k for k in self.helpers if k[0] and k[1] == f.attr]
+            if len(owners) == 1 and _simple_arg(f.value):
+                h = self.helpers[owners[0]]
+                if not h.static:
                     return h, f.value
-            h = self.helpers.get((f.value.id, f.attr))
-            if h and h.static:
-                return h, (None if h.static == "staticmethod" else f.value)
+                if h.static == "staticmethod" and isinstance(f.value, ast.Name):
+                    return h, None
         return None
 
     def run(self):
@@ -275,6 +293,26 @@ class Inliner:
                             self.in_function(m, n.name)
             if self.count == before:
                 break
+        # a helper that is no longer referred to anywhere has been folded into its users completely: it is not part of the program any more
+        for (cname, name), h in list(self.helpers.items()):
+            refs = 0
+            for n in ast.walk(self.tree):
+                if n is h.fn:
+                    continue
+                if isinstance(n, ast.Name) and n.id == name and not cname:
+                    refs += 1
+                elif isinstance(n, ast.Attribute) and n.attr == name:
+                    refs += 1
+                elif isinstance(n, ast.Constant) and n.value == name:
+                    refs += 1
+            inside = sum(1 for n in ast.walk(h.fn) if (isinstance(n, ast.Name) and n.id == name) or (isinstance(n, ast.Attribute) and n.attr == name))
+            if refs - inside <= 0 and any(hn == name for hn, _ in self.inlined):
+                holder = self.tree.body if not cname else next(c.body for c in self.tree.body if isinstance(c, ast.ClassDef) and c.name == cname)
+                if h.fn in holder:
+                    holder.remove(h.fn)
+                    self.removed.append(name)
+                    if not holder:
+                        holder.append(ast.Pass())
 
     def in_function(self, fn, cls):
         used = {n.id for n in ast.walk(fn) if isinstance(n, ast.Name)} | {a.arg for a in ast.walk(fn) if isinstance(a, ast.arg)}
@@ -305,28 +343,36 @@ class Inliner:
                 return c
         E().visit(fn)
 
+    def _site(self, st, cls, fn):
+        """The call to a statement-shaped helper that this statement is built around: its value, or a direct argument of its value."""
+        if not isinstance(st, (ast.Expr, ast.Assign, ast.AnnAssign, ast.AugAssign, ast.Return)):
+            return None
+        top = st.value
+        if not isinstance(top, ast.Call):
+            return None
+        cands = [top] + [a for a in top.args if isinstance(a, ast.Call)] + [k.value for k in top.keywords if isinstance(k.value, ast.Call)]
+        for call in cands:
+            got = self.lookup(call, cls)
+            if got and got[0].kind == "stmts" and got[0].fn is not fn:
+                return call, got
+        return None
+
     def statement(self, st, fn, cls, used):
-        if isinstance(st, ast.Expr):
-            call = st.value
-        elif isinstance(st, (ast.Assign, ast.AnnAssign, ast.AugAssign, ast.Return)):
-            call = st.value
-        else:
+        site = self._site(st, cls, fn)
+        if site is None:
             return None
-        if not isinstance(call, ast.Call):
-            return None
-        got = self.lookup(call, cls)
-        if not got or got[0].kind != "stmts" or got[0].fn is fn:
-            return None
-        h, recv = got
+        call, (h, recv) = site
         bound = _bind_args(h, call, recv)
         if bound is None:
             return None
-        body = copy.deepcopy(_strip_doc(h.fn.body))
+        body = copy.deepcopy(h.prefix)
+        retexpr = copy.deepcopy(h.expr) if h.expr is not None else None
         stored = set()
         for b in body:
             stored |= _stored_names(b)
+        returns_name = retexpr.id if isinstance(retexpr, ast.Name) else None
         target_names = set()
-        if isinstance(st, ast.Assign):
+        if isinstance(st, ast.Assign) and call is st.value:
             for t in st.targets:
                 if isinstance(t, ast.Name):
                     target_names.add(t.id)
@@ -334,26 +380,27 @@ class Inliner:
         for p, x in bound.items():
             if p not in stored and _simple_arg(x):
                 mapping[p] = x
+            elif isinstance(x, ast.Name) and x.id == p and (call is st.value and (isinstance(st, ast.Return) or (p in target_names and returns_name == p))):
+                pass        # `p = helper(.., p, ..)` with a helper that updates and returns its parameter p: the caller's p is that variable
             else:
                 new = p if p not in used else f"{p}__{h.fn.name.strip('_')}"
                 mapping[p] = new
                 pre.append(ast.Assign(targets=[ast.Name(id=new, ctx=ast.Store())], value=copy.deepcopy(x)))
                 used.add(new)
         for v in sorted(stored):
-            if v in mapping:
+            if v in mapping or v in bound:
                 continue
             if v in used and v not in target_names:
                 mapping[v] = f"{v}__{h.fn.name.strip('_')}"
             used.add(mapping.get(v, v))
         sub = _Subst(mapping)
         body = [sub.visit(b) for b in body]
-        ret = None
-        if body and isinstance(body[-1], ast.Return):
-            ret = body.pop().value
-        if ret is None:
-            ret = ast.Constant(None)
+        ret = sub.visit(retexpr) if retexpr is not None else ast.Constant(None)
         out = pre + body
-        if isinstance(st, ast.Expr):
+        if call is not st.value:
+            _replace_node(st, call, ret)
+            out.append(st)
+        elif isinstance(st, ast.Expr):
             if not (isinstance(ret, (ast.Constant, ast.Name))):
                 out.append(ast.Expr(value=ret))
         else:
@@ -366,6 +413,94 @@ class Inliner:
         self.count += 1
         self.inlined.append((h.fn.name, fn.name))
         return [loc(o, st) for o in out] or [loc(ast.Pass(), st)]
+
+
+# ------------------------------------------------------------------------------------------------ 1b. new named constants
+def _immutable_constant(v):
+    """A value expression that is a constant of an immutable type (so naming it changes nothing but the text)."""
+    if isinstance(v, ast.Constant):
+        return True
+    if isinstance(v, ast.Tuple):
+        return all(_immutable_constant(e) for e in v.elts)
+    if isinstance(v, ast.UnaryOp):
+        return _immutable_constant(v.operand)
+    if isinstance(v, ast.BinOp):
+        return _immutable_constant(v.left) and _immutable_constant(v.right)
+    if isinstance(v, ast.Call) and isinstance(v.func, ast.Name) and v.func.id in ("frozenset", "tuple") and not v.keywords and len(v.args) <= 1:
+        return all(isinstance(a, (ast.Set, ast.List, ast.Tuple)) and all(_immutable_constant(e) for e in a.elts) or _immutable_constant(a) for a in v.args)
+    return False
+
+
+def propagate_new_constants(tree, modname, known_names, stats):
+    """A module-level or class-level name that the reference does not know, bound once to an immutable constant and never
+    rebound, is replaced by its value where it is read ("introduce a named constant" undone)."""
+    consts, cconsts = {}, {}
+    stores = {}
+    for n in ast.walk(tree):
+        if isinstance(n, ast.Name) and isinstance(n.ctx, (ast.Store, ast.Del)):
+            stores[n.id] = stores.get(n.id, 0) + 1
+        elif isinstance(n, (ast.Global, ast.Nonlocal)):
+            for x in n.names:
+                stores[x] = stores.get(x, 0) + 2
+        elif isinstance(n, ast.Attribute) and isinstance(n.ctx, (ast.Store, ast.Del)):
+            stores["." + n.attr] = stores.get("." + n.attr, 0) + 1
+    for st in tree.body:
+        if isinstance(st, ast.Assign) and len(st.targets) == 1 and isinstance(st.targets[0], ast.Name) and _immutable_constant(st.value):
+            nm = st.targets[0].id
+            if nm not in known_names and stores.get(nm) == 1 and not (nm.startswith("__") and nm.endswith("__")):
+                consts[nm] = (st, st.value)
+        elif isinstance(st, ast.ClassDef):
+            for m in st.body:
+                if isinstance(m, ast.Assign) and len(m.targets) == 1 and isinstance(m.targets[0], ast.Name) and _immutable_constant(m.value):
+                    nm = m.targets[0].id
+                    if f"{st.name}.{nm}" not in known_names and stores.get(nm) == 1 and not stores.get("." + nm) and not (nm.startswith("__") and nm.endswith("__")):
+                        cconsts[nm] = (st, m, m.value)
+    if not consts and not cconsts:
+        return
+
+    class P(ast.NodeTransformer):
+        def visit_Name(self, n):
+            if isinstance(n.ctx, ast.Load) and n.id in consts:
+                return loc(copy.deepcopy(consts[n.id][1]), n)
+            return n
+
+        def visit_Attribute(self, n):
+            self.generic_visit(n)
+            if isinstance(n.ctx, ast.Load) and n.attr in cconsts and isinstance(n.value, ast.Name) and n.value.id in ("self", "cls", cconsts[n.attr][0].name):
+                return loc(copy.deepcopy(cconsts[n.attr][2]), n)
+            return n
+    P().visit(tree)
+    for nm, (st, _) in consts.items():
+        tree.body.remove(st)
+    for nm, (c, m, _) in cconsts.items():
+        c.body.remove(m)
+        if not c.body:
+            c.body.append(ast.Pass())
+    stats.setdefault("named-constants-inlined", []).extend(f"{modname}.{k}" for k in list(consts) + list(cconsts))
+
+
+def attr_access_by_name(tree, stats):
+    """getattr(x, "name") -> x.name ; setattr(x, "name", v) as a statement -> x.name = v  (literal identifiers only)."""
+    count = 0
+
+    class G(ast.NodeTransformer):
+        def visit_Call(self, c):
+            nonlocal count
+            self.generic_visit(c)
+            if isinstance(c.func, ast.Name) and c.func.id == "getattr" and len(c.args) == 2 and not c.keywords and isinstance(c.args[1], ast.Constant) \
+                    and isinstance(c.args[1].value, str) and c.args[1].value.isidentifier():
+                count += 1
+                return loc(ast.Attribute(value=c.args[0], attr=c.args[1].value, ctx=ast.Load()), c)
+            return c
+    G().visit(tree)
+    for holder, fld, block in blocks_of(tree):
+        for i, st in enumerate(block):
+            if isinstance(st, ast.Expr) and isinstance(st.value, ast.Call) and isinstance(st.value.func, ast.Name) and st.value.func.id == "setattr" and len(st.value.args) == 3 \
+                    and not st.value.keywords and isinstance(st.value.args[1], ast.Constant) and isinstance(st.value.args[1].value, str) and st.value.args[1].value.isidentifier():
+                block[i] = loc(ast.Assign(targets=[ast.Attribute(value=st.value.args[0], attr=st.value.args[1].value, ctx=ast.Store())], value=st.value.args[2]), st)
+                count += 1
+    if count:
+        stats["getattr/setattr-with-literal-name"] = stats.get("getattr/setattr-with-literal-name", 0) + count
 
 
 # ------------------------------------------------------------------------------------------------ 2. statement idioms
@@ -452,6 +587,47 @@ def canon_block(block, fn, counts):
     while i < len(block):
         st = block[i]
         nxt = block[i + 1] if i + 1 < len(block) else None
+        # X.extend(A if c else B)  ->  if c: X.extend(A) else: X.extend(B)   (update alike; a single-item append/add keeps its conditional value)
+        if isinstance(st, ast.Expr) and isinstance(st.value, ast.Call) and isinstance(st.value.func, ast.Attribute) and st.value.func.attr in ("extend", "update") \
+                and len(st.value.args) == 1 and not st.value.keywords and isinstance(st.value.args[0], ast.IfExp):
+            ie = st.value.args[0]
+
+            def mk(v):
+                return loc(ast.Expr(value=ast.Call(func=copy.deepcopy(st.value.func), args=[v], keywords=[])), st)
+            block[i] = loc(ast.If(test=ie.test, body=[mk(ie.body)], orelse=[mk(ie.orelse)]), st)
+            counts["conditional-argument->if/else"] = counts.get("conditional-argument->if/else", 0) + 1
+            canon_block(block[i].body, fn, counts)
+            canon_block(block[i].orelse, fn, counts)
+            if not block[i].orelse and not block[i].body:
+                del block[i]
+            elif not block[i].body:
+                block[i] = loc(ast.If(test=negate(ie.test), body=block[i].orelse, orelse=[]), st)
+            continue
+        if isinstance(st, ast.Expr) and isinstance(st.value, ast.Call) and isinstance(st.value.func, ast.Attribute) and st.value.func.attr in ("extend", "update") \
+                and len(st.value.args) == 1 and not st.value.keywords and isinstance(st.value.args[0], (ast.List, ast.Tuple, ast.Set, ast.Dict)):
+            a0 = st.value.args[0]
+            n_items = len(a0.keys) if isinstance(a0, ast.Dict) else len(a0.elts)
+            if n_items == 0:
+                del block[i]
+                counts["empty-extend-dropped"] = counts.get("empty-extend-dropped", 0) + 1
+                continue
+            if n_items == 1 and st.value.func.attr == "extend" and isinstance(a0, (ast.List, ast.Tuple)) and not isinstance(a0.elts[0], ast.Starred):
+                st.value.func.attr = "append"
+                st.value.args = [a0.elts[0]]
+                counts["extend-of-one->append"] = counts.get("extend-of-one->append", 0) + 1
+                continue
+        # a, b = x, y   ->   a = x ; b = y     (no starred element, no target read by a later right-hand side)
+        if isinstance(st, ast.Assign) and len(st.targets) == 1 and isinstance(st.targets[0], (ast.Tuple, ast.List)) and isinstance(st.value, (ast.Tuple, ast.List)) \
+                and len(st.targets[0].elts) == len(st.value.elts) >= 2 and not any(isinstance(e, ast.Starred) for e in st.targets[0].elts + st.value.elts):
+            tg = {ast.unparse(e) for e in st.targets[0].elts}
+            later_reads = set()
+            for e in st.value.elts[1:]:
+                later_reads |= {ast.unparse(n) for n in ast.walk(e) if isinstance(n, (ast.Name, ast.Attribute, ast.Subscript))}
+            odd = sum(1 for e in st.value.elts for n in ast.walk(e) if isinstance(n, (ast.Await, ast.Yield, ast.YieldFrom, ast.NamedExpr)))
+            if not (tg & later_reads) and not odd:
+                block[i:i + 1] = [loc(ast.Assign(targets=[t], value=v), st) for t, v in zip(st.targets[0].elts, st.value.elts)]
+                counts["tuple-assignment-split"] = counts.get("tuple-assignment-split", 0) + 1
+                continue
         # X = [] ; for ...: X.append(E)
         if isinstance(st, ast.Assign) and len(st.targets) == 1 and isinstance(st.targets[0], ast.Name) and isinstance(nxt, ast.For) and not _has_flow(nxt):
             kind = "list" if _is_empty_list(st.value) else "dict" if _is_empty_dict(st.value) else "set" if _is_empty_set(st.value) else None
@@ -513,6 +689,116 @@ def negate(e):
     if isinstance(e, ast.Compare) and len(e.ops) == 1 and type(e.ops[0]) in NEGOP:
         return ast.Compare(left=e.left, ops=[NEGOP[type(e.ops[0])]()], comparators=e.comparators)
     return ast.UnaryOp(op=ast.Not(), operand=e)
+
+
+def _global_aliases(fn, counts):
+    """`x = Module.attr.chain` (rooted in a name that is not local to the function), x bound nowhere else: x is just another
+    name for that object -- replace x by the chain and drop the assignment."""
+    local = set()
+    for n in ast.walk(fn):
+        if isinstance(n, ast.Name) and isinstance(n.ctx, (ast.Store, ast.Del)):
+            local.add(n.id)
+        elif isinstance(n, ast.arg):
+            local.add(n.arg)
+        elif isinstance(n, FUNC + (ast.ClassDef,)) and n is not fn:
+            local.add(n.name)
+        elif isinstance(n, (ast.Import, ast.ImportFrom)):
+            local |= {(a.asname or a.name).split(".")[0] for a in n.names}
+    stores = {}
+    for n in ast.walk(fn):
+        if isinstance(n, ast.Name) and isinstance(n.ctx, (ast.Store, ast.Del)):
+            stores[n.id] = stores.get(n.id, 0) + 1
+        elif isinstance(n, (ast.Global, ast.Nonlocal)):
+            for x in n.names:
+                stores[x] = stores.get(x, 0) + 2
+    for holder, fld, block in blocks_of(fn):
+        for st in list(block):
+            if not (isinstance(st, ast.Assign) and len(st.targets) == 1 and isinstance(st.targets[0], ast.Name) and isinstance(st.value, ast.Attribute)):
+                continue
+            root = st.value
+            while isinstance(root, ast.Attribute):
+                root = root.value
+            if not (isinstance(root, ast.Name) and root.id not in local and root.id not in ("self", "cls")):
+                continue
+            x = st.targets[0].id
+            if stores.get(x) != 1:
+                continue
+            # the chain must not be assigned to in this function
+            chain = ast.unparse(st.value)
+            if any(isinstance(n, (ast.Attribute, ast.Name)) and isinstance(getattr(n, "ctx", None), (ast.Store, ast.Del)) and ast.unparse(n) == chain for n in ast.walk(fn)):
+                continue
+            for n in ast.walk(fn):
+                for f, v in ast.iter_fields(n):
+                    if isinstance(v, ast.Name) and v.id == x and isinstance(v.ctx, ast.Load):
+                        setattr(n, f, loc(copy.deepcopy(st.value), v))
+                    elif isinstance(v, list):
+                        for k, e in enumerate(v):
+                            if isinstance(e, ast.Name) and e.id == x and isinstance(e.ctx, ast.Load):
+                                v[k] = loc(copy.deepcopy(st.value), e)
+            block.remove(st)
+            if not block:
+                block.append(loc(ast.Pass(), st))
+            counts["alias-of-global-object"] = counts.get("alias-of-global-object", 0) + 1
+
+
+def _merge_accumulators(fn, counts):
+    """`L = []` ... `L.append(..)` / `L.extend(..)` / `L += ..` ... `X.extend(L)` with no other use of L and no use of X in
+    between: the items are added to X directly (what remains of a list-returning helper after inlining)."""
+    for holder, fld, block in blocks_of(fn):
+        i = 0
+        while i < len(block):
+            st = block[i]
+            i += 1
+            if not (isinstance(st, ast.Assign) and len(st.targets) == 1 and isinstance(st.targets[0], ast.Name) and _is_empty_list(st.value)):
+                continue
+            L = st.targets[0].id
+            fin = None
+            for j in range(i, len(block)):
+                e = block[j]
+                if isinstance(e, ast.Expr) and isinstance(e.value, ast.Call) and isinstance(e.value.func, ast.Attribute) and e.value.func.attr == "extend" \
+                        and len(e.value.args) == 1 and isinstance(e.value.args[0], ast.Name) and e.value.args[0].id == L and _simple_arg(e.value.func.value):
+                    fin = j
+                    break
+            if fin is None:
+                continue
+            X = e.value.func.value
+            xtext = ast.unparse(X)
+            ok = True
+            uses = 0
+            for n in ast.walk(fn):
+                if isinstance(n, ast.Name) and n.id == L:
+                    uses += 1
+            inside = 0
+            for s2 in block[i:fin]:
+                for n in ast.walk(s2):
+                    if isinstance(n, ast.Name) and n.id == L:
+                        inside += 1
+                        par_ok = False
+                        # allowed: receiver of append/extend, target of +=
+                        for m in ast.walk(s2):
+                            if isinstance(m, ast.Call) and isinstance(m.func, ast.Attribute) and m.func.value is n and m.func.attr in ("append", "extend"):
+                                par_ok = True
+                            if isinstance(m, ast.AugAssign) and m.target is n and isinstance(m.op, ast.Add):
+                                par_ok = True
+                        ok = ok and par_ok
+                    if isinstance(n, (ast.Name, ast.Attribute)) and ast.unparse(n) == xtext:
+                        ok = False
+            if not ok or uses != inside + 2:
+                continue
+            for s2 in block[i:fin]:
+                for n in ast.walk(s2):
+                    for f, v in ast.iter_fields(n):
+                        if isinstance(v, ast.Name) and v.id == L:
+                            new = copy.deepcopy(X)
+                            if isinstance(v.ctx, ast.Store):
+                                for q in ast.walk(new):
+                                    if hasattr(q, "ctx") and q is new:
+                                        q.ctx = ast.Store()
+                            setattr(n, f, loc(new, v))
+            del block[fin]
+            block.remove(st)
+            counts["accumulator-merged"] = counts.get("accumulator-merged", 0) + 1
+            i = 0
 
 
 def _single_use_temps(fn, counts):
@@ -1013,15 +1299,21 @@ def normalise(tree, modname, keyword_names=frozenset(), ref=None, stats=None):
     mark_real(tree)
     known = set(ref.get("inventory", {}).get(modname, []))
     if known:
+        propagate_new_constants(tree, modname, set(ref.get("module_names", {}).get(modname, [])), stats)
+        attr_access_by_name(tree, stats)
         inl = Inliner(tree, modname, known)
         inl.run()
         if inl.count:
             stats["helpers-inlined"] = stats.get("helpers-inlined", 0) + inl.count
             stats.setdefault("inlined", []).extend(f"{modname}.{h}->{c}" for h, c in inl.inlined)
+            if inl.removed:
+                stats.setdefault("helpers-folded-away", []).extend(f"{modname}.{h}" for h in inl.removed)
     for q, fn in top_functions(tree, modname):
         for _ in range(2):
             for holder, fld, block in reversed(list(blocks_of(fn))):     # inner blocks first
                 canon_block(block, fn, stats)
+        _global_aliases(fn, stats)
+        _merge_accumulators(fn, stats)
         _single_use_temps(fn, stats)
     roles = ref.get("roles", {})
     for q, fn in top_functions(tree, modname):
@@ -1044,17 +1336,52 @@ def _preorder(node):
         yield from _preorder(c)
 
 
+def module_level_names(tree):
+    out = set()
+    for st in tree.body:
+        if isinstance(st, (ast.Assign, ast.AnnAssign, ast.AugAssign)):
+            for t in (st.targets if isinstance(st, ast.Assign) else [st.target]):
+                for n in ast.walk(t):
+                    if isinstance(n, ast.Name):
+                        out.add(n.id)
+        elif isinstance(st, ast.ClassDef):
+            out.add(st.name)
+            for m in st.body:
+                if isinstance(m, ast.Assign):
+                    for t in m.targets:
+                        if isinstance(t, ast.Name):
+                            out.add(f"{st.name}.{t.id}")
+        elif isinstance(st, FUNC):
+            out.add(st.name)
+    return out
+
+
+def module_level_values(tree):
+    """{name: value text} of module-level `name = value` (one target)."""
+    out = {}
+    for st in tree.body:
+        if isinstance(st, ast.Assign) and len(st.targets) == 1 and isinstance(st.targets[0], ast.Name):
+            out[st.targets[0].id] = " ".join(ast.unparse(st.value).split())
+    return out
+
+
 def fingerprint(fn):
-    """Shape of a function that does not depend on its own name (docstring and decorators' text excluded)."""
+    """Shape of a function that depends neither on its own name nor on the names of its variables (every Name and
+    parameter is numbered by first occurrence; attribute names, constants and structure are kept).  Docstring excluded."""
     import hashlib
     body = _strip_doc(fn.body) or fn.body
-    mod = ast.Module(body=[copy.deepcopy(b) for b in body], type_ignores=[])
-    for n in ast.walk(mod):
-        if isinstance(n, ast.Name) and n.id == fn.name:
-            n.id = "_SELF_"
+    mod = ast.Module(body=[copy.deepcopy(fn.args)] + [copy.deepcopy(b) for b in body], type_ignores=[])
+    num = {}
+    for n in _preorder(mod):
+        if isinstance(n, ast.Name):
+            n.id = num.setdefault(n.id, f"v{len(num)}") if n.id != fn.name else "_SELF_"
+        elif isinstance(n, ast.arg):
+            n.arg = num.setdefault(n.arg, f"v{len(num)}")
         elif isinstance(n, ast.Attribute) and n.attr == fn.name:
             n.attr = "_SELF_"
-    txt = ast.dump(fn.args) + "|" + ast.dump(mod) + "|" + str(len(fn.decorator_list))
+        elif isinstance(n, FUNC) and n is not fn:
+            n.name = num.setdefault(n.name, f"v{len(num)}")
+    txt = ast.dump(mod) + "|" + str(len(fn.decorator_list))
     return hashlib.sha1(txt.encode()).hexdigest()[:16]
 
 
@@ -1084,6 +1411,15 @@ def undo_function_renames(trees, ref=None, stats=None):
             elif isinstance(n, FUNC + (ast.ClassDef,)):
                 idents.add(n.name)
     renames = {}
+    for m, tree in trees.items():       # module-level variables first: same value text, reference name gone, new name unknown
+        refvals = ref.get("module_values", {}).get(m, {})
+        curvals = module_level_values(tree)
+        for v, text in refvals.items():
+            if v in curvals or v in idents:
+                continue
+            cands = [n for n, t in curvals.items() if t == text and n not in refvals and n not in ref.get("module_names", {}).get(m, [])]
+            if len(cands) == 1 and cands[0] not in renames and v not in renames.values():
+                renames[cands[0]] = v
     for m, tree in trees.items():
         known = set(inv.get(m, []))
         if not known:
@@ -1134,7 +1470,9 @@ def build_reference(root):
             with open(os.path.join(pkg, fn), encoding="utf8") as f:
                 trees[m] = ast.parse(f.read())
             inv[m] = sorted(q for q, _ in top_functions(trees[m], m))
-    ref = {"inventory": inv, "roles": {}, "fingerprints": {q: fingerprint(f) for m, tree in trees.items() for q, f in top_functions(tree, m)}}
+    ref = {"inventory": inv, "roles": {}, "fingerprints": {q: fingerprint(f) for m, tree in trees.items() for q, f in top_functions(tree, m)},
+           "module_names": {m: sorted(module_level_names(tree)) for m, tree in trees.items()},
+           "module_values": {m: module_level_values(tree) for m, tree in trees.items()}}
     roles = {}
     for m, tree in trees.items():
         normalise(tree, m, ref=ref)
